@@ -238,11 +238,8 @@ def writer_only(ctx, b, label):
             continue
         if fmt == 'ricdwrap':
             # the order in which Python iterates the set of cartesian letters is read off the text (as for molcas)
-            order = []
-            for line in w[1].splitlines():
-                if line.lower().startswith('cartesian '):
-                    order += [x for x in line.split()[1:] if x not in order]
-            margs = [order, _mels(pb[1])]
+            from . import c03
+            margs = [c03.cartesian_order(pb[1], w[1]), _mels(pb[1])]
         else:
             margs = args(b, pb[1])
         m = ctx.model.call(op, *margs)
